@@ -136,6 +136,20 @@ def strategy_runtime_of(world_case, t, decisions_by_task):
     return decisions_by_task.get(t)
 
 
+def _placed_then_unplaced(decision):
+    """One scheduler answer holds a placed PLACE_TASK decision of a task and, later, an unplaced one of the same task."""
+    placed = set()
+    for p in decision.get("placements", []):
+        if p.get("kind") != "place":
+            continue
+        k = (p.get("g"), p.get("t"))
+        if p.get("pool") is not None:
+            placed.add(k)
+        elif k in placed:
+            return True
+    return False
+
+
 def oracle(prop, run):
     """Yields (signature, detail)."""
     obs, world, case = run["obs"], run["world"], run["case"]
@@ -359,6 +373,12 @@ def oracle(prop, run):
                 for p_ in world["workload"]["profiles"] for st in p_["execution_strategies"]
             ):
                 cause = "strategy-with-overlapping-requirement-entries-refused-after-the-fit-check"
+            elif "list.remove(x): x not in list" in msg and not flags["drop_skipped_tasks"] and any(
+                _placed_then_unplaced(d) for d in case.get("decisions", [])
+            ):
+                # one answer places a task and, further down, leaves the same task unplaced: the skip path removes the
+                # cached TASK_PLACEMENT event from the queue although it is still pending in `__handle_scheduler_finish`
+                cause = "task-left-unplaced-after-being-placed-in-the-same-answer"
             else:
                 cause = "unclassified"
             yield (f"C05 run-aborted exc={obs['err']} cause={cause}", {"exc": obs.get("exc")})
